@@ -11,11 +11,14 @@ written and HOW MANY, and of the scalar quantisers whose results are shifted int
 * Rust's saturating float→int `as` casts, `f32::min`, `f32::max` on an extended-real domain and
   every `from_f32` quantiser of src/color/formats.rs that feeds a bit field
 * the `while` loop of `bcn_util::refine_endpoints` and the `max_iter` tables of src/encode/bc.rs
+* `rgb9995f::from_f32` (src/color/formats.rs) at the bit level — on binary32 bit patterns, with
+  the software binary32 of `ConvF32.lean` (namespace `SharedExp` at the end of this file)
 
 NOT modelled: the float bodies of the BC1/BC4/BC7 block encoders (explored by the harness).
 -/
 import DdsModel.Layout
 import DdsModel.EncLen
+import DdsModel.ConvF32
 namespace Dds.EncTotal
 open Dds
 
@@ -398,5 +401,154 @@ def bc7MaxIter : Quality → Nat
 def maxIters (q : Quality) : List Nat :=
   [if bc1RefineOn q then bc1LineMaxIter q else 0, if bc1RefineOn q then bc1MaxIter q else 0,
    bc4MaxIter q, bc7MaxIter q]
+
+/-! ### R9G9B9E5 at the bit level: `rgb9995f::from_f32` (src/color/formats.rs)
+
+An `f32` is its bit pattern (`Nat < 2^32`); `*`, `+`, `as u32`, `min` are the binary32 operations
+of `ConvF32.lean` (one correct rounding per operator, ties to even, gradual underflow, saturating
+cast with NaN → 0).  `none` stands for a panic of the overflow-checking / debug-assertion
+profile: a failing `debug_assert!` or an `i8` overflow.  In the release profile these checks do
+not exist and the arithmetic wraps; as long as the model does not answer `none` (which is what
+`Theorems/C15.lean` proves for every input) both profiles compute the same word. -/
+namespace SharedExp
+open Dds.CF32
+
+/-- `f32::max`: a NaN operand is ignored.  When the operands compare equal Rust returns "either"
+(this only matters for `-0.0` against `+0.0`, every other tie is between identical patterns);
+`tie` picks the operand, the theorems hold for both choices at every call site. -/
+def fmax (tie : Bool) (a b : Nat) : Nat :=
+  if isNaN a then b else if isNaN b then a else
+  if flt a b then b else if flt b a then a else if tie then a else b
+
+/-- `65408.0_f32` = `0x477F8000` = `511 · 2^7` -/
+def c65408 : Nat := 0x477F8000
+
+/-- `util::clamp_0_max(value, 65408.0)`: `value.max(0.0).min(max)` (`debug_assert!(max > 0.0)`
+holds for the literal) -/
+def clamp0Max (tie : Bool) (x : Nat) : Nat := fmin (fmax tie x 0) c65408
+
+/-- `f32::is_subnormal` -/
+def isSubnormal (b : Nat) : Bool := expField b == 0 && fracField b != 0
+
+/-- `x as i8` of a `u32` (truncation to 8 bits, two's complement) -/
+def asI8 (x : Nat) : Int := if x % 256 < 128 then ((x % 256 : Nat) : Int) else ((x % 256 : Nat) : Int) - 256
+
+/-- `two_powi(-(exp as i8 - 24))`: the `i8` subtraction and negation are overflow-checked, then
+`util::two_powi` asserts `-126 <= exponent` and builds the pattern `((exponent + 127) as u32) << 23`
+(`exponent ≤ 127` as an `i8`, so the shift stays inside 32 bits) -/
+def scaleOf (exp : Nat) : Option Nat :=
+  let a : Int := asI8 exp - 24
+  if a < -128 ∨ 127 < a then none else
+  let n : Int := -a
+  if n < -128 ∨ 127 < n then none else
+  if n < -126 then none else
+  some (twoPowi n)
+
+/-- `(c * f + 0.5) as u32` -/
+def mantOf (c f : Nat) : Nat := toNatSat (fadd (fmul c f) half) (2 ^ 32 - 1)
+
+/-- the three `debug_assert!(x_mant <= 511)` -/
+def finish (rm gm bm exp : Nat) : Option (Nat × Nat × Nat × Nat) :=
+  if rm ≤ 511 ∧ gm ≤ 511 ∧ bm ≤ 511 then some (rm, gm, bm, exp) else none
+
+/-- `rgb9995f::from_f32` up to the packing: `(r_mant, g_mant, b_mant, exp)`; the early
+`return 0` is the all-zero tuple.  `tie i` is the zero-sign choice of the `i`-th `max` call. -/
+def fields (tie : Nat → Bool) (r g b : Nat) : Option (Nat × Nat × Nat × Nat) :=
+  let r := clamp0Max (tie 0) r
+  let g := clamp0Max (tie 1) g
+  let b := clamp0Max (tie 2) b
+  let mx := fmax (tie 4) (fmax (tie 3) r g) b
+  -- `max == 0.0 || max.is_subnormal()` (`isZero` is false for NaN, like `==`)
+  if isZero mx || isSubnormal mx then some (0, 0, 0, 0) else
+  let rawExp := (mx >>> 23) &&& 0xFF
+  -- `(raw_exp as i32 - 127 + 16).max(0) as u32`: `raw_exp ≤ 255`, no `i32` overflow
+  let exp := (max ((rawExp : Int) - 127 + 16) 0).toNat
+  if 31 < exp then none else                      -- debug_assert!(exp <= 31)
+  match scaleOf exp with
+  | none => none
+  | some f =>
+    let rm := mantOf r f
+    let gm := mantOf g f
+    let bm := mantOf b f
+    if rm == 512 || gm == 512 || bm == 512 then
+      let exp := exp + 1                          -- `u32`, `exp ≤ 31` here
+      if 31 < exp then none else                  -- debug_assert!(exp <= 31)
+      match scaleOf exp with
+      | none => none
+      | some f => finish (mantOf r f) (mantOf g f) (mantOf b f) exp
+    else finish rm gm bm exp
+
+/-- `x << s` on `u32`: bits shifted past bit 31 are dropped (no panic for `s < 32`) -/
+def shl32 (x s : Nat) : Nat := (x <<< s) % 2 ^ 32
+
+/-- `r_mant | (g_mant << 9) | (b_mant << 18) | (exp << 27)` -/
+def word (f : Nat × Nat × Nat × Nat) : Nat :=
+  f.1 ||| shl32 f.2.1 9 ||| shl32 f.2.2.1 18 ||| shl32 f.2.2.2 27
+
+/-- `rgb9995f::from_f32`: the encoded `u32`, `none` = panic in the checked profile -/
+def fromF32 (tie : Nat → Bool) (r g b : Nat) : Option Nat := (fields tie r g b).map word
+
+end SharedExp
+
+/-! ### the binary32 UNORM / SNORM8 quantisers at the bit level
+
+`n1, n2, n4, n5, n6, n10::from_f32` and `s8::from_uf32` of src/color/formats.rs on binary32 bit
+patterns with the operations of `ConvF32.lean`, and the packed formats of
+src/encode/uncompressed.rs built from them.  (`s16::from_uf32` computes in `f64` and `n8`, `n16`,
+`xr10`, the YUV rows are in range by their cast / `min` alone: they stay with the abstract
+`Rounding` model above.) -/
+namespace QuantBits
+open Dds.CF32
+
+/-- `a >= b` (false when either is NaN; the zeros are equal) -/
+def fge (a b : Nat) : Bool := !isNaN a && !isNaN b && decide (key b ≤ key a)
+
+/-- `n1::from_f32`: `if x >= 0.5 { 1 } else { 0 }` -/
+def n1 (x : Nat) : Nat := if fge x half then 1 else 0
+
+/-- `(x.min(1.0) * MAX + 0.5) as uN`: `maxPat` is the pattern of the literal `MAX`, `tyMax` the
+largest value of the integer type of the cast -/
+def unorm (maxPat tyMax x : Nat) : Nat := toNatSat (fadd (fmul (fmin x one) maxPat) half) tyMax
+
+/-- the literals `3.0, 15.0, 31.0, 63.0, 1023.0, 254.0` -/
+def k3 : Nat := 0x40400000
+def k15 : Nat := 0x41700000
+def k31 : Nat := 0x41F80000
+def k63 : Nat := 0x427C0000
+def k1023 : Nat := 0x447FC000
+def k254 : Nat := 0x437E0000
+
+/-- `n2::from_f32` … `n6::from_f32` (`as u8`), `n10::from_f32` (`as u16`) -/
+def n2 (x : Nat) : Nat := unorm k3 255 x
+def n4 (x : Nat) : Nat := unorm k15 255 x
+def n5 (x : Nat) : Nat := unorm k31 255 x
+def n6 (x : Nat) : Nat := unorm k63 255 x
+def n10 (x : Nat) : Nat := unorm k1023 65535 x
+
+/-- `s8::from_uf32`: `norm = (x.min(1.0) * 254.0 + 0.5) as u8`, then `from_norm`
+(`debug_assert!(x <= 254)`, `(x + 1).wrapping_sub(128)`; `none` = the assertion / the `u8`
+overflow of `x + 1`, which is the same condition) -/
+def s8 (x : Nat) : Option Nat := snormFromNorm 8 (unorm k254 255 x)
+
+/-- `x << s` in an integer type of `bits` bits -/
+def shl (bits x s : Nat) : Nat := (x <<< s) % 2 ^ bits
+
+/-- the encoded pixel (as a little-endian number) of the packed formats, from the bit patterns
+of an RGBA `f32` pixel: the `universal!` closures of src/encode/uncompressed.rs -/
+def encode (fmt : String) (r g b a : Nat) : Option Nat :=
+  match fmt with
+  | "B5G6R5_UNORM" => some (n5 b ||| shl 16 (n6 g) 5 ||| shl 16 (n5 r) 11)
+  | "B5G5R5A1_UNORM" => some (n5 b ||| shl 16 (n5 g) 5 ||| shl 16 (n5 r) 10 ||| shl 16 (n1 a) 15)
+  | "B4G4R4A4_UNORM" => some (n4 b ||| shl 16 (n4 g) 4 ||| shl 16 (n4 r) 8 ||| shl 16 (n4 a) 12)
+  | "A4B4G4R4_UNORM" => some (n4 a ||| shl 16 (n4 b) 4 ||| shl 16 (n4 g) 8 ||| shl 16 (n4 r) 12)
+  | "R10G10B10A2_UNORM" =>
+    some (shl 32 (n2 a) 30 ||| shl 32 (n10 b) 20 ||| shl 32 (n10 g) 10 ||| n10 r)
+  | "R8G8B8A8_SNORM" =>
+    match s8 r, s8 g, s8 b, s8 a with
+    | some r, some g, some b, some a => some (r ||| (g <<< 8) ||| (b <<< 16) ||| (a <<< 24))
+    | _, _, _, _ => none
+  | _ => none
+
+end QuantBits
 
 end Dds.EncTotal
